@@ -179,6 +179,9 @@ def prerequisites(ctx, chk, tier):
     c02s.flip_parity(ctx, chk, metrics=("fpr", "fnr"))
     # eer() reads pos[0], pos[-1], neg[0], neg[-1] as extremes: the class invariant "pos/neg ascending" (R01.4) is a prerequisite
     c01.run_sortedness(ctx, chk, tier)
+    # no in-place write to the score arrays and no unsound memo in the functions eer() composes
+    from . import c10
+    c10.purity(ctx, chk, only=("Scores.eer", "Scores.threshold_at_fpr", "Scores.threshold_at_fnr", "Scores.fpr", "Scores.fnr", "Scores.cm"), strict=False)
 
 
 def find_root(ctx, chk):
